@@ -8,6 +8,7 @@ arbitrary operation sequences, (5) the readable theorems, (6) `model_holds`.
 -/
 import NotationModel.Model.C15
 import NotationModel.Generated.C15
+import NotationModel.Generated.SrcC15
 set_option linter.unusedSimpArgs false
 set_option linter.unusedVariables false
 
@@ -19,13 +20,15 @@ namespace NotationModel.C15
 theorem fact_fileName_is_hex_of_sha256 :
     Facts.crlFileNameCalls = ["sha256.Sum256", "hex.EncodeToString"] := by decide
 
-/-- `Get` reads exactly `root/fileName(url)` and touches nothing else -/
-theorem fact_get_reads_root_fileName :
-    Facts.crlGetCalls = ["os.ReadFile(filepath.Join(c.root,c.fileName(url)))"] := by decide
+/-- callee of a rendered call: the text before the first parenthesis -/
+def calleeOf (s : String) : List Char := s.toList.takeWhile (· != '(')
 
-/-- `Set` writes exactly `root/fileName(url)` through `file.WriteFile` with temp dir = root -/
-theorem fact_set_writes_root_fileName :
-    Facts.crlSetCalls = ["file.WriteFile(c.root,filepath.Join(c.root,c.fileName(url)),contentBytes)"] := by decide
+/-- `Get` makes exactly one file-system call, `os.ReadFile`; `Set` exactly one, `file.WriteFile`
+(which arguments they get - root, `root/fileName(url)`, the marshalled entry - is proved from the
+translated source in section (7): `source_Get_refines_model`, `source_Set_decision`) -/
+theorem fact_get_single_read : Facts.crlGetCalls.map calleeOf = ["os.ReadFile".toList] := by decide
+
+theorem fact_set_single_write : Facts.crlSetCalls.map calleeOf = ["file.WriteFile".toList] := by decide
 
 /-- `file.WriteFile(tempDir, path, content)`: the temp file is created in `tempDir`, the only
 other path touched is `path` (rename target) -/
@@ -34,36 +37,13 @@ theorem fact_writeFile_skeleton :
     Facts.writeFileSteps = ["os.CreateTemp(tempDir,tempFileNamePrefix)", "tempFile.Write(content)",
       "tempFile.Close()", "os.Rename(tempFile.Name(),path)"] := by decide
 
-/-- the entry file is a JSON object with the base64 fields `baseCRL` and (optional) `deltaCRL`;
+/-- (the decision structure of `Get`, `Set`, `checkExpiry` and `fileName` is tied semantically to
+the translated source in section (7); only what the translation hides in oracles is pinned here)
+the entry file is a JSON object with the base64 fields `baseCRL` and (optional) `deltaCRL`;
 the harness labels planted bytes with a struct carrying exactly these tags -/
 theorem fact_entry_fields :
     Facts.crlContentFields =
       [("BaseCRL", "[]byte", "baseCRL"), ("DeltaCRL", "[]byte", "deltaCRL,omitempty")] := by decide
-
-/-- `checkExpiry` is: zero `NextUpdate` -> a plain error; `time.Now().After(nextUpdate)` (strictly
-later - the boundary instant is still fresh) -> `ErrCacheMiss`; otherwise nil.
-Mirrored by `checkExpiry` of the model (`none => invalid`, `now > nu => expired`, else `fresh`). -/
-theorem fact_checkExpiry :
-    Facts.crlCheckExpiryTests =
-      [("nextUpdate.IsZero()", "errors.New"), ("time.Now().After(nextUpdate)", "corecrl.ErrCacheMiss")] ∧
-    Facts.crlCheckExpiryFinal = "nil" := by decide
-
-/-- `Get`: read, unmarshal, parse base, parse delta only when the field is non-nil, expiry of
-base, expiry of delta only when present - the order `getContent` transcribes -/
-theorem fact_get_order :
-    Facts.crlGetSteps =
-      ["os.ReadFile(filepath.Join(c.root,c.fileName(url)))", "json.Unmarshal(contentBytes,&content)",
-       "x509.ParseRevocationList(content.BaseCRL)", "x509.ParseRevocationList(content.DeltaCRL)",
-       "checkExpiry(ctx,bundle.BaseCRL.NextUpdate)", "checkExpiry(ctx,bundle.DeltaCRL.NextUpdate)"] ∧
-    Facts.crlGetConds =
-      ["err!=nil", "errors.Is(err,fs.ErrNotExist)", "err!=nil", "err!=nil", "content.DeltaCRL!=nil",
-       "err!=nil", "err!=nil", "bundle.DeltaCRL!=nil", "err!=nil"] := by decide
-
-/-- `Set`: nil bundle and nil BaseCRL are rejected before anything is written; the delta is
-stored only when present; then one `json.Marshal` and one `file.WriteFile` -/
-theorem fact_set_guards :
-    Facts.crlSetConds = ["bundle==nil", "bundle.BaseCRL==nil", "bundle.DeltaCRL!=nil", "err!=nil", "err!=nil"] ∧
-    Facts.crlSetSteps = ["json.Marshal", "file.WriteFile"] := by decide
 
 theorem fact_tempPrefix : tempPrefix = ['n', 'o', 't', 'a', 't', 'i', 'o', 'n', '-'] := by decide
 
@@ -461,7 +441,7 @@ theorem bundle_only_if_wellformed_and_fresh (now : Int) (c : C) (b : D) (d : Opt
     (h : getContent cd now c = .bundle b d) :
     cd.decode c = some (b, d) ∧ (∃ tb, cd.parse b = some (some tb) ∧ now ≤ tb) ∧
       (∀ dd, d = some dd → ∃ td, cd.parse dd = some (some td) ∧ now ≤ td) := by
-  unfold getContent at h
+  unfold getContent getContentWith at h
   cases hdec : cd.decode c with
   | none => simp [hdec] at h
   | some bd =>
@@ -502,49 +482,49 @@ theorem getContent_meets (now : Int) (c : C) :
     | .mustErr => getContent cd now c = .err
     | .refused => getContent cd now c = .miss ∨ getContent cd now c = .err := by
   cases hdec : cd.decode c with
-  | none => simp [classify, getContent, hdec]
+  | none => simp [classify, getContent, getContentWith, hdec]
   | some bd =>
     obtain ⟨b, d⟩ := bd
     cases hpb : cd.parse b with
     | none =>
       cases d with
-      | none => simp [classify, getContent, malformedCrl, expiredCrl, checkExpiry, *]
+      | none => simp [classify, getContent, getContentWith, malformedCrl, expiredCrl, checkExpiry, *]
       | some dd =>
         cases hpd : cd.parse dd with
-        | none => simp [classify, getContent, malformedCrl, expiredCrl, checkExpiry, *]
+        | none => simp [classify, getContent, getContentWith, malformedCrl, expiredCrl, checkExpiry, *]
         | some nud =>
           cases nud with
-          | none => simp [classify, getContent, malformedCrl, expiredCrl, checkExpiry, *]
+          | none => simp [classify, getContent, getContentWith, malformedCrl, expiredCrl, checkExpiry, *]
           | some td =>
-            by_cases h2 : now > td <;> simp [classify, getContent, malformedCrl, expiredCrl, checkExpiry, *]
+            by_cases h2 : now > td <;> simp [classify, getContent, getContentWith, malformedCrl, expiredCrl, checkExpiry, *]
     | some nub =>
       cases nub with
       | none =>
         cases d with
-        | none => simp [classify, getContent, malformedCrl, expiredCrl, checkExpiry, *]
+        | none => simp [classify, getContent, getContentWith, malformedCrl, expiredCrl, checkExpiry, *]
         | some dd =>
           cases hpd : cd.parse dd with
-          | none => simp [classify, getContent, malformedCrl, expiredCrl, checkExpiry, *]
+          | none => simp [classify, getContent, getContentWith, malformedCrl, expiredCrl, checkExpiry, *]
           | some nud =>
             cases nud with
-            | none => simp [classify, getContent, malformedCrl, expiredCrl, checkExpiry, *]
+            | none => simp [classify, getContent, getContentWith, malformedCrl, expiredCrl, checkExpiry, *]
             | some td =>
-              by_cases h2 : now > td <;> simp [classify, getContent, malformedCrl, expiredCrl, checkExpiry, *]
+              by_cases h2 : now > td <;> simp [classify, getContent, getContentWith, malformedCrl, expiredCrl, checkExpiry, *]
       | some tb =>
         cases d with
         | none =>
-          by_cases h1 : now > tb <;> simp [classify, getContent, malformedCrl, expiredCrl, checkExpiry, *]
+          by_cases h1 : now > tb <;> simp [classify, getContent, getContentWith, malformedCrl, expiredCrl, checkExpiry, *]
         | some dd =>
           cases hpd : cd.parse dd with
           | none =>
-            by_cases h1 : now > tb <;> simp [classify, getContent, malformedCrl, expiredCrl, checkExpiry, *]
+            by_cases h1 : now > tb <;> simp [classify, getContent, getContentWith, malformedCrl, expiredCrl, checkExpiry, *]
           | some nud =>
             cases nud with
             | none =>
-              by_cases h1 : now > tb <;> simp [classify, getContent, malformedCrl, expiredCrl, checkExpiry, *]
+              by_cases h1 : now > tb <;> simp [classify, getContent, getContentWith, malformedCrl, expiredCrl, checkExpiry, *]
             | some td =>
               by_cases h1 : now > tb <;> by_cases h2 : now > td <;>
-                simp [classify, getContent, malformedCrl, expiredCrl, checkExpiry, *]
+                simp [classify, getContent, getContentWith, malformedCrl, expiredCrl, checkExpiry, *]
 
 /-- reading back what `Set` encoded, while fresh: exactly the bytes that were stored -/
 theorem getContent_encode_fresh (now : Int) (b : D) (d : Option D) (tb : Int)
@@ -552,7 +532,7 @@ theorem getContent_encode_fresh (now : Int) (b : D) (d : Option D) (tb : Int)
     (hd : ∀ dd, d = some dd → ∃ td, cd.parse dd = some (some td) ∧ now ≤ td) :
     getContent cd now (cd.encode b d) = .bundle b d := by
   have h1 : ¬ now > tb := by omega
-  unfold getContent
+  unfold getContent getContentWith
   rw [cd.roundtrip]
   cases d with
   | none => simp [hb, checkExpiry, h1]
@@ -566,7 +546,7 @@ theorem getContent_encode_base_expired (now : Int) (b : D) (d : Option D) (tb : 
     (hb : cd.parse b = some (some tb)) (hxb : now > tb)
     (hd : ∀ dd, d = some dd → (cd.parse dd).isSome) :
     getContent cd now (cd.encode b d) = .miss := by
-  unfold getContent
+  unfold getContent getContentWith
   rw [cd.roundtrip]
   cases d with
   | none => simp [hb, checkExpiry, hxb]
@@ -582,7 +562,7 @@ theorem getContent_encode_delta_expired (now : Int) (b dd : D) (tb td : Int)
     (hd : cd.parse dd = some (some td)) (hxd : now > td) :
     getContent cd now (cd.encode b (some dd)) = .miss := by
   have h1 : ¬ now > tb := by omega
-  unfold getContent
+  unfold getContent getContentWith
   rw [cd.roundtrip]
   simp [hb, hd, checkExpiry, h1, hxd]
 
@@ -592,7 +572,7 @@ theorem getContent_malformed (now : Int) (c : C)
     (h : cd.decode c = none ∨ (∃ b d, cd.decode c = some (b, d) ∧ cd.parse b = none) ∨
       (∃ b dd, cd.decode c = some (b, some dd) ∧ cd.parse dd = none)) :
     getContent cd now c = .err := by
-  unfold getContent
+  unfold getContent getContentWith
   rcases h with h | ⟨b, d, h, hb⟩ | ⟨b, dd, h, hd⟩
   · simp [h]
   · simp [h, hb]
@@ -792,10 +772,11 @@ theorem opCheck_spec (st : Nat → Option Content) (op : Op Nat CrlRef Content) 
   | get u now =>
     simp only [opCheck, specOut]
     cases hst : st u with
-    | none => simp [toOutJ]
+    | none => simp [toOutJ, getOf]
     | some c =>
       have hm := getContent_meets absCodec now c
-      simp only []
+      simp only [getOf]
+      rw [show getContentWith absCodec.decode absCodec.parse now c = getContent absCodec now c from rfl]
       cases hcl : classify absCodec now c with
       | bundle b d => simp only [hcl] at hm; simp [hm, toOutJ]
       | mustMiss => simp only [hcl] at hm; simp [hm, toOutJ]
@@ -953,5 +934,264 @@ example : Holds { exInput with urls := [{ text := "a", digest := exDigest 1 }, {
 /-- the file name of a traversal-shaped URL is plain hex -/
 example : fileName exDigest 255 =
     "ff07070707070707070707070707070707070707070707070707070707070707".toList := by decide
+
+/-! ### (7) tie to the translated source
+
+`Generated/SrcC15.lean` is produced on every run by `extract/go2lean.go` from
+verifier/crl/crl.go: `FileCache.fileName`, `checkExpiry`, `FileCache.Get`, `FileCache.Set` as Lean
+`Id.run do` blocks over the oracles of `Src/TypesC15.lean` (`crl.Env`: os.ReadFile, json.Unmarshal,
+json.Marshal, x509.ParseRevocationList, file.WriteFile, sha256.Sum256, time.Now). The theorems
+below hold for ALL inputs and ALL oracle answers; they never quote the generated text. -/
+
+namespace Tie
+open NotationModel.Src
+
+theorem hextable_eq : hex.hextable = hexChars := by decide
+
+theorem encodeToString_toList (bs : Bytes) : (hex.EncodeToString bs).toList = C15.hex bs := by
+  unfold hex.EncodeToString
+  rw [String.toList_ofList, hextable_eq]
+  induction bs with
+  | nil => rfl
+  | cons b bs ih => simp only [List.flatMap_cons, ih]; simp [C15.hex, hexDigit]
+
+theorem source_fileName_refines_model (env : crl.Env) (c : crl.FileCache) (url : String) :
+    (crl.FileCache.fileName env c url).toList = C15.fileName env.sum256 url := by
+  unfold crl.FileCache.fileName
+  simp [Id.run, GoLite.idPure, C15.fileName, encodeToString_toList]
+
+def pathOf (env : crl.Env) (c : crl.FileCache) (url : String) : String :=
+  filepath.Join c.root (crl.FileCache.fileName env c url)
+
+theorem source_path_refines_model (env : crl.Env) (c : crl.FileCache) (url : String) :
+    (pathOf env c url).toList = filePath c.root.toList env.sum256 url := by
+  simp [pathOf, filepath.Join, filePath, source_fileName_refines_model]
+
+def expiryOf : Option GoLite.Err → Expiry
+  | none => .fresh
+  | some e => if e = corecrl.ErrCacheMiss then .expired else .invalid
+
+theorem source_checkExpiry_refines_model (env : crl.Env) (ctx : context.Context) (nu : time.Time) :
+    expiryOf (crl.checkExpiry env ctx nu) = C15.checkExpiry env.now nu.instant := by
+  obtain ⟨inst⟩ := nu
+  unfold crl.checkExpiry
+  cases inst with
+  | none => simp [Id.run, GoLite.idPure, time.Time.IsZero, C15.checkExpiry, expiryOf, GoLite.errorf, corecrl.ErrCacheMiss]
+  | some t =>
+    by_cases hlt : env.now > t <;>
+      simp [Id.run, GoLite.idPure, time.Time.IsZero, time.Time.After, crl.Env.Now, time.atUnix, C15.checkExpiry, expiryOf, hlt]
+
+/-- what a caller sees of `Get`: a bundle, a miss (`errors.Is(err, ErrCacheMiss)`), or an error -/
+inductive Res | hit (b : corecrl.Bundle) | miss | error
+  deriving DecidableEq, Repr
+
+def resOf (r : Option corecrl.Bundle × Option GoLite.Err) : Res :=
+  match r.2 with
+  | some e => if e = corecrl.ErrCacheMiss then .miss else .error
+  | none =>
+    match r.1 with
+    | some b => .hit b
+    | none => .error
+
+/-- the model's `decode` / `parse` read off the oracles (`D` = a possibly-nil byte slice) -/
+def decodeOf (env : crl.Env) (c : Bytes) : Option (Option Bytes × Option (Option Bytes)) :=
+  match env.unmarshal c with
+  | .ok ct => some (ct.BaseCRL, ct.DeltaCRL.map some)
+  | .error _ => none
+
+def crlOf (env : crl.Env) (der : Option Bytes) : Option x509.RevocationList :=
+  match env.parse der with
+  | .ok rl => some rl
+  | .error _ => none
+
+def parseOf (env : crl.Env) (der : Option Bytes) : Option (Option Int) :=
+  (crlOf env der).map (·.NextUpdate.instant)
+
+/-- the model's result as a caller of the Go function would see it -/
+def ofModel (env : crl.Env) : Out (Option Bytes) → Res
+  | .bundle b d => .hit { BaseCRL := crlOf env b, DeltaCRL := d.bind (crlOf env) }
+  | .miss => .miss
+  | _ => .error
+
+/-- the library oracles never return the cache's own miss sentinel -/
+def LibSane (env : crl.Env) : Prop :=
+  (∀ p e, env.read p = .error e → e ≠ corecrl.ErrCacheMiss) ∧
+  (∀ b e, env.unmarshal b = .error e → e ≠ corecrl.ErrCacheMiss) ∧
+  (∀ b e, env.parse b = .error e → e ≠ corecrl.ErrCacheMiss)
+
+theorem bundle_default : (default : corecrl.Bundle) = { BaseCRL := none, DeltaCRL := none } := rfl
+theorem content_default : (default : crl.fileCacheContent) = { BaseCRL := none, DeltaCRL := none } := rfl
+
+/-- unfold the oracle wrappers, the result views and the model's read function; the hypotheses
+about the oracle answers of the case at hand are passed as extra lemmas -/
+local macro "get_simp" "[" ts:Lean.Parser.Tactic.simpLemma,* "]" : tactic =>
+  `(tactic| simp [Id.run, GoLite.idPure, crl.Env.ReadFile, crl.Env.Unmarshal, crl.Env.ParseRevocationList, crl.pair,
+      errors.Is, resOf, ofModel, getOf, getContentWith, decodeOf, parseOf, crlOf, GoLite.wrapf, GoLite.deref,
+      bundle_default, content_default, expiryOf, $ts,*])
+
+theorem source_Get_refines_model (env : crl.Env) (c : crl.FileCache) (ctx : context.Context) (url : String)
+    (h : LibSane env) :
+    resOf (crl.FileCache.Get env c ctx url) =
+      match env.read (pathOf env c url) with
+      | .error e => if e = fs.ErrNotExist then ofModel env (getOf (decodeOf env) (parseOf env) env.now none) else .error
+      | .ok bytes => ofModel env (getOf (decodeOf env) (parseOf env) env.now (some bytes)) := by
+  obtain ⟨hr, hu, hp⟩ := h
+  have hce := source_checkExpiry_refines_model env ctx
+  unfold crl.FileCache.Get pathOf
+  cases hread : env.read (filepath.Join c.root (crl.FileCache.fileName env c url)) with
+  | error e =>
+    have := hr _ _ hread
+    by_cases he : e = fs.ErrNotExist <;> get_simp [hread, he, this]
+  | ok bytes =>
+    cases hun : env.unmarshal bytes with
+    | error e =>
+      have := hu _ _ hun
+      get_simp [hread, hun, this]
+    | ok ct =>
+      cases hpb : env.parse ct.BaseCRL with
+      | error e =>
+        have := hp _ _ hpb
+        get_simp [hread, hun, hpb, this]
+      | ok rlb =>
+        have hb := hce rlb.NextUpdate
+        cases hd : ct.DeltaCRL with
+        | none =>
+          cases hcb : crl.checkExpiry env ctx rlb.NextUpdate with
+          | none => rw [hcb] at hb; get_simp [hread, hun, hpb, hd, hcb, ← hb]
+          | some e =>
+            rw [hcb] at hb
+            by_cases hm : e = corecrl.ErrCacheMiss <;> get_simp [hread, hun, hpb, hd, hcb, ← hb, hm]
+        | some dd =>
+          cases hpd : env.parse (some dd) with
+          | error e =>
+            have := hp _ _ hpd
+            get_simp [hread, hun, hpb, hd, hpd, this]
+          | ok rld =>
+            have hdl := hce rld.NextUpdate
+            cases hcb : crl.checkExpiry env ctx rlb.NextUpdate with
+            | some e =>
+              rw [hcb] at hb
+              by_cases hm : e = corecrl.ErrCacheMiss <;> get_simp [hread, hun, hpb, hd, hpd, hcb, ← hb, hm]
+            | none =>
+              rw [hcb] at hb
+              cases hcd : crl.checkExpiry env ctx rld.NextUpdate with
+              | none => rw [hcd] at hdl; get_simp [hread, hun, hpb, hd, hpd, hcb, hcd, ← hb, ← hdl]
+              | some e =>
+                rw [hcd] at hdl
+                by_cases hm : e = corecrl.ErrCacheMiss <;> get_simp [hread, hun, hpb, hd, hpd, hcb, hcd, ← hb, ← hdl, hm]
+
+/-- the model operation a Go call `Set(ctx, url, bundle)` is: the cache stores `Raw` bytes -/
+def opOf (url : String) (bundle : Option corecrl.Bundle) : Op String Bytes Bytes :=
+  match bundle with
+  | none => .setNil url
+  | some b => .set url (b.BaseCRL.map (·.Raw)) (b.DeltaCRL.map (·.Raw))
+
+def contentOf (b : Bytes) (d : Option Bytes) : crl.fileCacheContent := { BaseCRL := some b, DeltaCRL := d }
+
+/-- `Set`, oracle by oracle: refusals answer with a plain error before any oracle is consulted;
+otherwise `{BaseCRL: base.Raw, DeltaCRL: delta.Raw if present}` is marshalled and
+`file.WriteFile(root, root/fileName(url), bytes)` is called, whose answer is the result. -/
+theorem source_Set_decision (env : crl.Env) (c : crl.FileCache) (ctx : context.Context) (url : String)
+    (bundle : Option corecrl.Bundle) :
+    crl.FileCache.Set env c ctx url bundle =
+      match opOf url bundle with
+      | .set _ (some b) d =>
+        match env.marshal (contentOf b d) with
+        | .error e => some e
+        | .ok bytes => env.write c.root (pathOf env c url) bytes
+      | _ => some ⟨"error"⟩ := by
+  unfold crl.FileCache.Set pathOf
+  cases bundle with
+  | none => simp [Id.run, GoLite.idPure, opOf, GoLite.errorf]
+  | some b =>
+    obtain ⟨base, delta⟩ := b
+    cases base with
+    | none => simp [Id.run, GoLite.idPure, opOf, GoLite.errorf, GoLite.deref]
+    | some rb =>
+      cases delta with
+      | none =>
+        cases hm : env.marshal (contentOf rb.Raw none) with
+        | error e =>
+          simp [contentOf] at hm
+          simp [Id.run, GoLite.idPure, opOf, GoLite.errorf, GoLite.deref, GoLite.wrapf, crl.Env.Marshal, crl.pair, contentOf, hm]
+        | ok bytes =>
+          simp [contentOf] at hm
+          cases hw : env.write c.root (filepath.Join c.root (crl.FileCache.fileName env c url)) bytes <;>
+            simp [Id.run, GoLite.idPure, opOf, GoLite.errorf, GoLite.deref, GoLite.wrapf, crl.Env.Marshal, crl.Env.WriteFile,
+              crl.pair, contentOf, hm, hw]
+      | some rd =>
+        cases hm : env.marshal (contentOf rb.Raw (some rd.Raw)) with
+        | error e =>
+          simp [contentOf] at hm
+          simp [Id.run, GoLite.idPure, opOf, GoLite.errorf, GoLite.deref, GoLite.wrapf, crl.Env.Marshal, crl.pair, contentOf, hm]
+        | ok bytes =>
+          simp [contentOf] at hm
+          cases hw : env.write c.root (filepath.Join c.root (crl.FileCache.fileName env c url)) bytes <;>
+            simp [Id.run, GoLite.idPure, opOf, GoLite.errorf, GoLite.deref, GoLite.wrapf, crl.Env.Marshal, crl.Env.WriteFile,
+              crl.pair, contentOf, hm, hw]
+
+/-- TIE: `FileCache.Set` against the model's `step` on `.setNil` / `.set`, for every codec whose
+`encode` is what `json.Marshal` yields: either both refuse (plain error, directory unchanged), or
+the model writes `encode base delta` to `root/fileName(url)` and answers ok, and the source calls
+`file.WriteFile` with temp dir = root on that very path with that very content and returns its
+answer (nil = ok). -/
+theorem source_Set_refines_model (env : crl.Env) (c : crl.FileCache) (ctx : context.Context) (url : String)
+    (bundle : Option corecrl.Bundle) (cd : Codec Bytes Bytes)
+    (henc : ∀ b d, env.marshal (contentOf b d) = .ok (cd.encode b d)) (fs : FS Bytes) :
+    ((step cd c.root.toList env.sum256 fs (opOf url bundle)).2 = .err ∧
+      (step cd c.root.toList env.sum256 fs (opOf url bundle)).1 = fs ∧
+      crl.FileCache.Set env c ctx url bundle = some ⟨"error"⟩) ∨
+    (∃ b d, (step cd c.root.toList env.sum256 fs (opOf url bundle)) =
+        (fs.write (pathOf env c url).toList (cd.encode b d), .ok) ∧
+      crl.FileCache.Set env c ctx url bundle = env.write c.root (pathOf env c url) (cd.encode b d)) := by
+  rw [source_Set_decision, source_path_refines_model]
+  cases bundle with
+  | none => left; simp [opOf, step]
+  | some bb =>
+    obtain ⟨base, delta⟩ := bb
+    cases base with
+    | none => left; simp [opOf, step]
+    | some rb => right; exact ⟨rb.Raw, delta.map (·.Raw), by simp [opOf, step], by simp [opOf, henc]⟩
+
+/-- TIE, the same against the model's `step`: for every codec whose `decode` / `parse` are the
+oracles' and every directory that holds at `root/fileName(url)` what `os.ReadFile` finds there
+(nothing = `fs.ErrNotExist`), the translated `Get` answers hit / miss / error exactly as the
+model's `.get` operation at time `now`. -/
+theorem source_Get_refines_step (env : crl.Env) (c : crl.FileCache) (ctx : context.Context) (url : String)
+    (h : LibSane env) (cd : Codec (Option Bytes) Bytes) (hdec : cd.decode = decodeOf env)
+    (hparse : cd.parse = parseOf env) (dir : FS Bytes)
+    (hfs : match env.read (pathOf env c url) with
+      | .ok bytes => dir.read (pathOf env c url).toList = some bytes
+      | .error e => e = fs.ErrNotExist ∧ dir.read (pathOf env c url).toList = none) :
+    resOf (crl.FileCache.Get env c ctx url) =
+      ofModel env (step cd c.root.toList env.sum256 dir (.get url env.now)).2 := by
+  rw [source_Get_refines_model env c ctx url h]
+  simp only [step, ← source_path_refines_model, hdec, hparse]
+  cases hread : env.read (pathOf env c url) with
+  | error e => rw [hread] at hfs; simp [hfs.1, hfs.2]
+  | ok bytes => rw [hread] at hfs; simp [hfs]
+
+/-! #### non-vacuity: the translated functions run -/
+
+def exEnv : crl.Env :=
+  { now := 100, sum256 := fun _ => List.replicate 32 171, read := fun _ => .ok [1],
+    unmarshal := fun _ => .ok { BaseCRL := some [2], DeltaCRL := none },
+    marshal := fun _ => .ok [9], parse := fun _ => .ok { Raw := [2], NextUpdate := ⟨some 200⟩ },
+    write := fun _ _ _ => none }
+
+example : crl.FileCache.fileName exEnv ⟨"/r"⟩ "../../etc/passwd" =
+    "abababababababababababababababababababababababababababababababab" := by decide
+example : crl.checkExpiry exEnv () ⟨some 100⟩ = none := by decide            -- the boundary instant is fresh
+example : crl.checkExpiry exEnv () ⟨some 99⟩ = some corecrl.ErrCacheMiss := by decide
+example : (crl.checkExpiry exEnv () ⟨none⟩).isSome = true := by decide
+example : resOf (crl.FileCache.Get exEnv ⟨"/r"⟩ () "u") =
+    .hit { BaseCRL := some { Raw := [2], NextUpdate := ⟨some 200⟩ }, DeltaCRL := none } := by decide
+example : resOf (crl.FileCache.Get { exEnv with now := 201 } ⟨"/r"⟩ () "u") = .miss := by decide
+example : resOf (crl.FileCache.Get { exEnv with read := fun _ => .error fs.ErrNotExist } ⟨"/r"⟩ () "u") = .miss := by decide
+example : resOf (crl.FileCache.Get { exEnv with unmarshal := fun _ => .error ⟨"json"⟩ } ⟨"/r"⟩ () "u") = .error := by decide
+example : crl.FileCache.Set exEnv ⟨"/r"⟩ () "u" none = some ⟨"error"⟩ := by decide
+example : crl.FileCache.Set exEnv ⟨"/r"⟩ () "u" (some { BaseCRL := some { Raw := [2], NextUpdate := ⟨some 200⟩ } }) = none := by decide
+
+end Tie
 
 end NotationModel.C15
